@@ -38,10 +38,17 @@ def _r3_tarjan(work, tier, o: Outcome):
     o.extra['tarjan_machine_invariants'] = invs
 
 
-def _drive_scc(g, order):
+# vertex objects: scc() takes any hashable vertices -- 0, '', () and 0.0 are as good as any other
+NAMINGS = {'int1': lambda v: v, 'int0': lambda v: v - 1, 'str': lambda v: '' if v == 1 else 'v' * (v - 1),
+           'tuple': lambda v: tuple(range(v - 1)), 'float': lambda v: float(v - 1)}
+
+
+def _drive_scc(g, order, naming='int1'):
     from fggs.utils import scc
     n = g['n']
     visits = []
+    nm = NAMINGS[naming]
+    back = {nm(v): v for v in range(1, n + 1)}
 
     class Logged(dict):
         """the adjacency mapping, logging every read of g[v]: the code reads it once per visit(v),
@@ -51,15 +58,16 @@ def _drive_scc(g, order):
             return dict.__getitem__(self, k)
     d = Logged()
     for v in order:
-        d[v] = {w: None for w in g['adj'][v - 1]}
+        d[nm(v)] = {nm(w): None for w in g['adj'][v - 1]}
     try:
         with warnings.catch_warnings():
             warnings.simplefilter('ignore')
             comps = scc(d)
-        return {'kind': 'scc', 'g': g, 'order': list(order), 'out': 'ok',
-                'comps': [list(c) for c in comps], 'visits': visits}
+        return {'kind': 'scc', 'g': g, 'order': list(order), 'out': 'ok', 'naming': naming,
+                'comps': [[back[x] for x in c] for c in comps], 'visits': [back[x] for x in visits]}
     except Exception as e:  # noqa
-        return {'kind': 'scc', 'g': g, 'order': list(order), 'out': 'raise:' + type(e).__name__, 'comps': [], 'visits': visits}
+        return {'kind': 'scc', 'g': g, 'order': list(order), 'out': 'raise:' + type(e).__name__, 'comps': [], 'naming': naming,
+                'visits': [back.get(x, 0) for x in visits]}
 
 
 def _nt_case(stage, ng, keys):
@@ -113,9 +121,12 @@ def _cases(tier, seed, work, o: Outcome):
         perms = lambda n: (itertools.permutations(range(1, n + 1)) if n <= 3
                            else [tuple(range(1, n + 1)), tuple(range(n, 0, -1)), (2, 4, 1, 3)])
     o.extra['tlc_enumerated_digraphs'] = len(graphs)
-    for g in graphs:
-        for p in perms(g['n']):
+    names = list(NAMINGS)
+    for gi, g in enumerate(graphs):
+        for pi, p in enumerate(perms(g['n'])):
             cases.append(_drive_scc(g, p))
+            if g['n'] >= 2:         # the same run on other vertex objects (falsy ones included)
+                cases.append(_drive_scc(g, p, names[1 + (gi + pi) % (len(names) - 1)]))
     o.exhaustive = True
     rng = rng_for(seed, 'c19')
     nrand = 400 if tier == 'quick' else 6000
@@ -129,11 +140,13 @@ def _cases(tier, seed, work, o: Outcome):
             adj.append(s)
         order = list(range(1, n + 1))
         rng.shuffle(order)
-        cases.append(_drive_scc({'n': n, 'adj': adj}, order))
+        cases.append(_drive_scc({'n': n, 'adj': adj}, order, rng.choice(names)))
     nnt = 100 if tier == 'quick' else 1500
     for i in range(nnt):
         a = AG.gen_ag(rng, n_nts=(1, 4), recursion='any', max_edges=3, max_nodes=2, p_norules=0.3,
                       weights='small', allow_unused_terms=True)
+        if i % 4 == 1:
+            a = AG.add_shared_rhs_twin(rng, a)     # two rules (different left-hand sides) sharing ONE right-hand-side object
         cases.extend(_drive_nt(a, with_keys=(i % 2 == 0), detour_rng=(rng_for(seed, f'c19detour{i}') if i % 3 == 0 else None)))
     return cases
 
@@ -165,7 +178,7 @@ def replay(path, seed):
     o = Outcome(PID, 'quick', seed)
     with Scratch() as work:
         if c['kind'] == 'scc':
-            c2 = _drive_scc(c['g'], c['order'])
+            c2 = _drive_scc(c['g'], c['order'], c.get('naming', 'int1'))
         else:
             raise MachineryFailure('nt replay needs the full grammar; re-run the check with the same seed')
         verdicts, st, tr, _ = judge_batch(work, 'Trace_Scc', [c2])
